@@ -274,6 +274,12 @@ pub fn run(ctx: &Ctx) -> Report {
                 // RED1 / RED2 only present through export-like lines
                 text.push_str("\nRED2, INSITU, A_RED, B, 0.1, 0.2, 0.3\n");
             }
+            2 => {
+                // a set that does not mention electricity at all (buildings without electricity): usable
+                let kept: Vec<&str> = text.lines().filter(|l| !l.trim_start().starts_with("ELECTRICIDAD")).collect();
+                text = kept.join("\n");
+                t.count("generated.set_without_electricity");
+            }
             _ => {}
         }
         let input = parse_lines(&text);
@@ -282,6 +288,7 @@ pub fn run(ctx: &Ctx) -> Report {
     });
     let quotas = vec![
         ("unusable_set_rejected".to_string(), tally.get("unusable_set_rejected"), 100),
+        ("sets_without_electricity_accepted".to_string(), tally.get("sets_without_electricity_accepted"), 100),
         ("buildings_evaluated_with_prepared_set".to_string(), tally.get("buildings_evaluated_with_prepared_set"), 2000),
         ("buildings_exporting_to_nepb".to_string(), tally.get("buildings_exporting_to_nepb"), 300),
         ("buildings_exporting_ambient_or_solar".to_string(), tally.get("buildings_exporting_ambient_or_solar"), 300),
